@@ -8,7 +8,8 @@ From Coq Require Import List Bool Arith Lia.
 Import ListNotations.
 
 Inductive event :=
-| ECoef      (* coef = <any expression>                                   *)
+| ECoef      (* coef = <pseudo-inverse of the row-scaled Vandermonde> @ rhs, or lstsq on that tall matrix *)
+| ECoefOther (* coef = <any other expression> / in-place write: not the solve the optimality theorems describe *)
 | EBase      (* baseline = self._polynomial.vandermonde @ coef            *)
 | EOther     (* baseline = <anything else>, or an in-place write to it    *)
 | EReport.   (* params['coef'] = _convert_coef[2d](coef, <domains>)       *)
@@ -29,6 +30,7 @@ Record state := mkS { sync : bool; reported : bool; bad : bool }.
 Definition step (e : event) (s : state) : state :=
   match e with
   | ECoef => mkS false (reported s) (bad s || reported s)
+  | ECoefOther => mkS false (reported s) true
   | EBase => mkS true (reported s) (bad s || reported s)
   | EOther => mkS false (reported s) (bad s || reported s)
   | EReport => mkS (sync s) true (bad s || negb (sync s) || reported s)
@@ -155,6 +157,8 @@ Qed.
 Example flow_rejects_stale : flow_ok (Seq (Atom ECoef) (Seq (Atom EBase) (Seq (Star (Atom ECoef)) (Atom EReport)))) = false.
 Proof. reflexivity. Qed.
 Example flow_rejects_overwrite : flow_poly (Seq (Atom ECoef) (Seq (Atom EBase) (Alt (Atom EOther) Skip))) = false.
+Proof. reflexivity. Qed.
+Example flow_rejects_other_solve : flow_ok (Seq (Atom ECoefOther) (Atom EBase)) = false.
 Proof. reflexivity. Qed.
 Example flow_accepts_modpoly :
   flow_poly (Seq (Atom ECoef) (Seq (Atom EBase) (Seq (Plus (Seq (Atom ECoef) (Atom EBase))) (Alt (Atom EReport) Skip)))) = true.
